@@ -192,7 +192,8 @@ func (f *Frame) invoke(st *State, fi *FuncInfo, args []Term, tsub map[*types.Typ
 		}
 		return f.callByContract(st, fi, args, tsub, pos)
 	case KModel:
-		return f.inline(st, fi.MPkg, fi.Model, nil, args, tsub, true, pos)
+		md, mp := fi.modelFor(f.pk)
+		return f.inline(st, mp, md, nil, args, tsub, true, pos)
 	case KSpec:
 		return f.inline(st, fi.Pkg, fi.Decl, fi, args, tsub, true, pos)
 	case KInline:
